@@ -224,7 +224,7 @@ recorded loss was computed inside the closure, before the step's last parameter 
 value of the parameter, one closure evaluation followed by a shift of +5. -/
 
 def cexCfg : Cfg :=
-  { loss := fun _ θ _ _ => θ, metric := fun _ _ _ _ => 0, nMetrics := 0,
+  { userLoss := fun _ θ _ _ => θ, metric := fun _ _ _ _ => 0, nMetrics := 0,
     plainStep := fun _ => 0, closureShifts := fun _ => [5] }
 
 theorem closure_novalid_counterexample :
@@ -235,7 +235,7 @@ theorem closure_novalid_counterexample :
 
 /-- non-vacuity: a concrete non-monotone history with a tie -/
 example :
-    let c : Cfg := { loss := fun _ θ tr i => if tr then 0 else [7, 3, 9, 3, 5].getD i 0, metric := fun _ _ _ _ => 0,
+    let c : Cfg := { userLoss := fun _ θ tr i => if tr then 0 else [7, 3, 9, 3, 5].getD i 0, metric := fun _ _ _ _ => 0,
                      nMetrics := 0, plainStep := fun k => k + 1, closureShifts := fun _ => [] }
     let s := fits c (fun _ _ => []) 0 [2, 3] (init 100 .plain 1 1 0)
     s.validLoss = [7, 3, 9, 3, 5] ∧ s.lowest = some 3 ∧ s.best = some 103 ∧ s.θ = 115 := by
